@@ -74,6 +74,12 @@ def layouts(N, tier, seed):
             k += 1
             yield {'backend': 'npy', 'dtype': dt, 'nc': NCS[k % 4], 'parts': [n]}
             yield {'backend': 'array', 'dtype': dt, 'nc': NCS[(k + 1) % 4], 'parts': [n]}
+        for j, parts in enumerate(L.compositions(n)):
+            if len(parts) >= 2 and len(set(parts)) >= 2 and j % 5 == n % 5:
+                k += 1
+                # a compressed file stored in chunks of unequal length
+                yield {'backend': 'cbin', 'dtype': ['int16', 'int32', 'uint16'][k % 3], 'nc': NCS[k % 4], 'parts': [n], 'chunk_len': max(parts),
+                       'threads': 1 + k % 3, 'lens': list(parts)}
         for cl in sorted(set([1, 2, 3, n])):
             for th in (1, 2, 3):
                 k += 1
@@ -262,9 +268,12 @@ def open_layout(lay, d):
         bounds = [0, n]
     else:
         fl = dt.kind == 'f'
-        p = L.write_cbin(d, A, rate, lay['chunk_len'], n_threads=1, do_time_diff=not fl)
+        if lay.get('lens'):
+            p = L.write_cbin_irregular(d, A, rate, lay['lens'])
+        else:
+            p = L.write_cbin(d, A, rate, lay['chunk_len'], n_threads=1, do_time_diff=not fl)
         r = call(lambda: get_ephys_reader(L.open_cbin(p, lay['threads'])))
-        bounds = list(range(0, n, lay['chunk_len'])) + [n]
+        bounds = list(range(0, n, lay['chunk_len'])) + [n] if not lay.get('lens') else np.r_[0, np.cumsum(lay['lens'])].tolist()
     return A, r, bounds, rate
 
 
@@ -343,7 +352,7 @@ def _run(case, ctx, d):
     n, nc = A.shape
     be = lay['backend']
     layout_key = (be, lay.get('ext'), lay.get('offset'), lay['dtype'], nc, tuple(lay['parts']),
-                  lay.get('chunk_len'), lay.get('threads'))
+                  lay.get('chunk_len'), lay.get('threads'), tuple(lay.get('lens') or ()))
     feats = {'backend': be}
     if not r.ok:
         ctx.count(1)
